@@ -77,7 +77,11 @@ impl LuauRequireMode {
     pub(crate) fn is_module_folder_name(&self, path: &Path) -> bool {
         let expect_value = Some(self.module_folder_name());
         path.file_name().and_then(OsStr::to_str) == expect_value
-            || path.file_stem().and_then(OsStr::to_str) == expect_value
+            || (path.file_stem().and_then(OsStr::to_str) == expect_value
+                && matches!(
+                    path.extension().and_then(OsStr::to_str),
+                    Some("lua") | Some("luau")
+                ))
     }
 
     pub(crate) fn find_require(
